@@ -295,7 +295,7 @@ func drawOps(t *rapid.T, minKinds, maxKinds int) []op {
 	nk := rapid.IntRange(minKinds, maxKinds).Draw(t, "nkinds")
 	var ks []string
 	for i := 0; i < nk; i++ {
-		ks = append(ks, rapid.SampledFrom(kinds).Draw(t, fmt.Sprintf("kind%d", i)))
+		ks = append(ks, gen.Sampled(kinds).Draw(t, fmt.Sprintf("kind%d", i)))
 	}
 	return drawOpsOf(t, n, ks)
 }
@@ -335,23 +335,23 @@ func workload(t *rapid.T, coldStart bool) {
 			ks[0] = kinds[f%len(kinds)]
 		}
 		if rapid.IntRange(0, 2).Draw(t, "second-kind") == 0 {
-			ks = append(ks, rapid.SampledFrom(kinds).Draw(t, "kind2"))
+			ks = append(ks, gen.Sampled(kinds).Draw(t, "kind2"))
 		}
 		g = rapid.IntRange(2, 4).Draw(t, "goroutines")
 		ops = drawOpsOf(t, g*rapid.IntRange(1, 3).Draw(t, "ops-per-goroutine"), ks)
 	} else if rapid.IntRange(0, 2).Draw(t, "small") == 0 {
 		// small workloads on fresh objects: first-use races inside an object (see above)
-		ks := []string{rapid.SampledFrom(kinds).Draw(t, "kind0")}
+		ks := []string{gen.Sampled(kinds).Draw(t, "kind0")}
 		if rapid.Bool().Draw(t, "second-kind") {
-			ks = append(ks, rapid.SampledFrom(kinds).Draw(t, "kind1"))
+			ks = append(ks, gen.Sampled(kinds).Draw(t, "kind1"))
 		}
 		g = rapid.IntRange(2, 4).Draw(t, "goroutines")
 		ops = drawOpsOf(t, g*rapid.IntRange(1, 3).Draw(t, "ops-per-goroutine"), ks)
 	} else {
 		ops = drawOps(t, 2, 6)
-		g = rapid.SampledFrom([]int{2, 3, 4, 8, 16, 32}).Draw(t, "goroutines")
+		g = gen.Sampled([]int{2, 3, 4, 8, 16, 32}).Draw(t, "goroutines")
 	}
-	procs := rapid.SampledFrom([]int{2, 4, 16}).Draw(t, "gomaxprocs")
+	procs := gen.Sampled([]int{2, 4, 16}).Draw(t, "gomaxprocs")
 	yield := rapid.Bool().Draw(t, "gosched")
 	// record the workload so that a race report (which halts the process) can be tied to it
 	desc := fmt.Sprintf("goroutines=%d gomaxprocs=%d gosched=%v ops=%v", g, procs, yield, ops)
